@@ -9,7 +9,13 @@ pub fn generate(seed: u64, tier: &str, out: &mut dyn std::io::Write) {
     let dir = run_dir("C19");
     for i in 0..n {
         let mut r = Rng::for_case(seed, 19, i);
-        let sc = gen_scenario(&mut r, false);
+        let mut sc = gen_scenario(&mut r, false);
+        // in some histories the target changes its address space before the last request: the page behind an
+        // application region that could only be copied in part gets mapped (a thread of the target does it when told)
+        let grows = Rng::for_case(seed, 1901, i).chance(1, 4);
+        if grows {
+            sc.args = vec!["-t".to_string(), Rng::for_case(seed, 1902, i).range(1, 4).to_string(), "-r".to_string(), "4096:u".to_string(), "-G".to_string()];
+        }
         let t = match Target::spawn(&sc.args) {
             Ok(t) => t,
             Err(e) => {
@@ -17,7 +23,13 @@ pub fn generate(seed: u64, tier: &str, out: &mut dyn std::io::Write) {
                 continue;
             }
         };
-        let cfg = gen_cfg(&mut r, &t);
+        let mut cfg = gen_cfg(&mut r, &t);
+        let mut grow_at = 0u64;
+        if grows {
+            let reg = t.desc["regions"][0]["addr"].as_u64().unwrap();
+            grow_at = reg + 4096;
+            cfg.app_memory = vec![(reg + *Rng::for_case(seed, 1903, i).pick(&[0u64, 8, 4000]), 4096 + *Rng::for_case(seed, 1904, i).pick(&[1u64, 100, 4096]))];
+        }
         let k = r.range(2, 5);
         let mut w = writer_for(&t, &cfg);
         let mut imgs = Vec::new();
@@ -26,6 +38,7 @@ pub fn generate(seed: u64, tier: &str, out: &mut dyn std::io::Write) {
         // panics): whatever such a request recorded must not show up in the next one either.
         let mut rd = Rng::new(r.next() ^ 0x19);
         let mut mutated = false;
+        let mut grown = false;
         for j in 0..k {
             let mut dest = RecDest::new(vec![], 0);
             let disturb = j + 1 < k && rd.chance(1, 2);
@@ -39,6 +52,30 @@ pub fn generate(seed: u64, tier: &str, out: &mut dyn std::io::Write) {
             }
             // before the last request the target's resource limits change (visible in /proc/<tid>/limits): what an
             // earlier request read of the target's files must not be what this one reports
+            if j + 1 == k && grows {
+                if let Some(mt) = t.threads.last() {
+                    if let Ok(mut f) = std::fs::OpenOptions::new().write(true).open(format!("/proc/{}/fd/{}", t.pid, mt.pipe_w)) {
+                        use std::io::Write;
+                        let _ = f.write_all(b"x");
+                    }
+                }
+                let deadline = std::time::Instant::now() + std::time::Duration::from_secs(2);
+                while std::time::Instant::now() < deadline {
+                    // (the new page may be merged with the mapping in front of it: look for a line that covers it)
+                    let covered = t.maps_text().lines().any(|l| {
+                        let mut it = l.split(|c| c == '-' || c == ' ');
+                        match (it.next().and_then(|a| u64::from_str_radix(a, 16).ok()), it.next().and_then(|a| u64::from_str_radix(a, 16).ok())) {
+                            (Some(a), Some(b)) => a <= grow_at && grow_at < b,
+                            _ => false,
+                        }
+                    });
+                    if covered {
+                        grown = true;
+                        break;
+                    }
+                    std::thread::sleep(std::time::Duration::from_millis(1));
+                }
+            }
             if j + 1 == k {
                 unsafe {
                     let mut cur: libc::rlimit = std::mem::zeroed();
@@ -88,7 +125,7 @@ pub fn generate(seed: u64, tier: &str, out: &mut dyn std::io::Write) {
         writeln!(
             out,
             "C19 w{}-{} kind=reuse cfg={} k={} results={} imgs={} fresh_result={} fresh={} mutated={} args={}",
-            seed, i, cfg.field(), k, results.join(","), imgs.join(","), fres, fimg, mutated as u8, sc.args.join(",")
+            seed, i, cfg.field(), k, results.join(","), imgs.join(","), fres, fimg, if grown { 2 } else { mutated as u8 }, sc.args.join(",")
         )
         .unwrap();
     }
